@@ -119,3 +119,96 @@ Proof.
     repeat split; try lia; try (rewrite !upd_length, falses_length; reflexivity); try (right; lia);
       intros k; rewrite !nth_upd, !upd_length, falses_length, nth_falses, Ta, Tb, Tf, !andb_true_r; reflexivity.
 Qed.
+
+(* ------------------------------------------------------------------------------------ *)
+(** * edge -> face lookup: symmetric in the two endpoints; result is -1 or an index >= r*c *)
+
+Lemma is_nn_sym ix iy jx jy : is_nn jx jy ix iy = is_nn ix iy jx jy.
+Proof.
+  unfold is_nn. rewrite (Z.eqb_sym jx ix), (Z.eqb_sym jy iy).
+  replace (jy - iy) with (- (iy - jy)) by ring. replace (jx - ix) with (- (ix - jx)) by ring.
+  rewrite !Z.abs_opp. reflexivity.
+Qed.
+
+Lemma is_nn_cases ix iy jx jy : is_nn ix iy jx jy = true ->
+  (ix = jx /\ (jy = iy + 1 \/ jy = iy - 1)) \/ (iy = jy /\ (jx = ix + 1 \/ jx = ix - 1)).
+Proof.
+  unfold is_nn. intros H. apply orb_true_iff in H. destruct H as [H|H];
+    apply andb_true_iff in H; destruct H as [H1 H2]; apply Z.eqb_eq in H1, H2; lia.
+Qed.
+
+Lemma edge_face_xy_sym ix iy jx jy : m_edge_face_xy jx jy ix iy = m_edge_face_xy ix iy jx jy.
+Proof.
+  unfold m_edge_face_xy. rewrite (Z.min_comm jx ix), (Z.min_comm jy iy), (Z.eqb_sym jx ix). reflexivity.
+Qed.
+
+Lemma edge_face_sym r c ix iy jx jy : m_edge_face r c jx jy ix iy = m_edge_face r c ix iy jx jy.
+Proof.
+  unfold m_edge_face. rewrite is_nn_sym, edge_face_xy_sym, (Z.min_comm jx ix), (Z.min_comm jy iy). reflexivity.
+Qed.
+
+Lemma face_offset_nonneg x y w : 0 <= x -> 0 <= y -> 0 <= w -> 0 <= (x * w + 1) / 2 + y / 2.
+Proof. intros. assert (0 <= x * w) by nia. set (p := x * w) in *. clearbody p. lia. Qed.
+
+Lemma edge_face_range r c ix iy jx jy f :
+  m_edge_face r c ix iy jx jy = Some f -> f = -1 \/ r * c <= f.
+Proof.
+  unfold m_edge_face. destruct (negb _); [discriminate|]. cbv zeta.
+  destruct (_ || _ || _ || _); [discriminate|].
+  destruct (m_edge_face_xy ix iy jx jy) as [x y].
+  destruct ((x <? 0) || (y <? 0) || (r - 1 <=? x) || (c - 1 <=? y)) eqn:E; intros H; injection H as <-; [left; reflexivity|right].
+  apply orb_false_iff in E. destruct E as [E E4]. apply orb_false_iff in E. destruct E as [E E3].
+  apply orb_false_iff in E. destruct E as [E1 E2].
+  pose proof (face_offset_nonneg x y (c - 1)). lia.
+Qed.
+
+(* ------------------------------------------------------------------------------------ *)
+(** * the orientation table *)
+
+Ltac fin_form :=
+  repeat match goal with
+         | |- _ /\ _ => split
+         | |- letter_x _ = true => first [reflexivity | exact (eq_refl : letter_x 1 = true)]
+         | |- _ = _ => reflexivity
+         | |- (_ /\ _) \/ _ => first [left; split; reflexivity | right; split; reflexivity]
+         | |- _ \/ _ => first [left; reflexivity | right; reflexivity]
+         end.
+
+Lemma edge_desc_form ii jj ff ix iy jx jy d :
+  m_edge_desc ii jj ff ix iy jx jy = Some d ->
+  exists l1 a l2 b q s,
+    d = {| d_args := [(l1, a); (l2, b)]; d_q := q; d_sets := sets_of ff s |}
+    /\ ((a = ii /\ b = jj) \/ (a = jj /\ b = ii))
+    /\ letter_x l1 = true /\ letter_x l2 = true /\ letter_x s = true /\ (q = 0 \/ q = 2).
+Proof.
+  unfold m_edge_desc, sets_of, mkdesc, desc_set.
+  destruct (negb (is_nn ix iy jx jy)); [discriminate|].
+  destruct (ix =? jx).
+  - cbv zeta. intros H. injection H as <-.
+    destruct (_ || _); destruct (ff =? -1); cbn [negb d_args d_q d_sets app];
+      do 6 eexists; (split; [reflexivity|]); fin_form.
+  - destruct (iy =? jy); [|discriminate]. cbv zeta. intros H. injection H as <-.
+    destruct (iy mod 2 =? 0); [destruct (jx <? ix)|destruct (ix <? jx)]; destruct (ff =? -1);
+      cbn [negb d_args d_q d_sets app]; do 6 eexists; (split; [reflexivity|]); fin_form.
+Qed.
+
+(** swapping the endpoints gives the same letters and the opposite sign *)
+Lemma edge_desc_swap ii jj ff ix iy jx jy d :
+  is_nn ix iy jx jy = true ->
+  m_edge_desc ii jj ff ix iy jx jy = Some d ->
+  m_edge_desc jj ii ff jx jy ix iy
+  = Some {| d_args := d_args d; d_q := (d_q d + 2) mod 4; d_sets := d_sets d |}.
+Proof.
+  intros NN. pose proof (is_nn_cases _ _ _ _ NN) as C.
+  unfold m_edge_desc. rewrite (is_nn_sym ix iy jx jy), NN. cbn [negb]. cbv zeta.
+  rewrite (Z.eqb_sym jx ix), (Z.eqb_sym jy iy).
+  pose proof (Z.mod_pos_bound ix 2 ltac:(lia)) as Mx. pose proof (Z.mod_pos_bound iy 2 ltac:(lia)) as My.
+  destruct (ix =? jx) eqn:Ex.
+  - apply Z.eqb_eq in Ex. subst jx.
+    destruct (ix mod 2 =? 0) eqn:P0; destruct (ix mod 2 =? 1) eqn:P1;
+      destruct (jy <? iy) eqn:L1; destruct (iy <? jy) eqn:L2; try lia;
+      cbn [andb orb]; intros H; injection H as <-; destruct (ff =? -1); reflexivity.
+  - destruct (iy =? jy) eqn:Ey; [|discriminate]. apply Z.eqb_eq in Ey. subst jy.
+    destruct (iy mod 2 =? 0) eqn:P0; destruct (jx <? ix) eqn:L1; destruct (ix <? jx) eqn:L2; try lia;
+      intros H; injection H as <-; destruct (ff =? -1); reflexivity.
+Qed.
